@@ -3,7 +3,7 @@
       skip, a loop and an end report). *)
 From Coq Require Import Lia ZArith List.
 From OCI Require Import Machine Checkers.
-From OCI.proofs Require Import Base Trace ArithOk InvKnown ChkKnown IterBase ChkIter ChkAll IterFair GapFree AfterNone.
+From OCI.proofs Require Import Base Trace ArithOk InvKnown ChkKnown IterBase ChkIter ChkAll IterFair GapFree AfterNone RunC16 Sequential.
 Import ListNotations.
 Open Scope N_scope.
 
@@ -206,4 +206,64 @@ Proof.
   split; [vm_compute; reflexivity|]. split; [vm_compute; reflexivity|]. split; [vm_compute; reflexivity|].
   split; [vm_compute; reflexivity|]. split; [vm_compute; reflexivity|]. split; [vm_compute; reflexivity|].
   split; [vm_compute; reflexivity|]. split; vm_compute; reflexivity.
+Qed.
+
+(** ** a single thread (C04, the sequential corollary)
+
+    One thread over a source of seven elements: a single pull, a chunk of three of which it takes one, a
+    buffered iterator of size two of which it takes one element, a length query, an enumerated loop with
+    chunk size two, and a pull that is told the end.  The hypotheses of
+    [C04.c04_single_thread_is_sequential_programs] hold for the five kinds; the return events deliver
+    [0,1), [1,2) and [2,4) (the chunk: taken and not taken), [4,5) and [5,6) (the buffered chunk), [6,7) (the
+    loop): the positions 0 .. 6 in this order.  After 14 steps of the wrapped iterator's run the thread is
+    inside its chunk pull (it has called the wrapped next() twice): the statement is about every such state *)
+Definition solo_progs : tid -> list op := fun t =>
+  match t with
+  | 0%nat => [Next NIdVal; Chunk 3 1; BufNew 2; BufNext 1; TryLen; Loop LEnum 2 None; Next NVal]
+  | _ => [Next NVal]
+  end.
+
+Lemma solo_wf_progs : wf_progs solo_progs.
+Proof. intros t. destruct t as [|t]; repeat constructor; cbn; rewrite ?W_val; lia. Qed.
+
+Lemma solo_plain_progs : plain_progs solo_progs.
+Proof. intros t. destruct t as [|t]; split; repeat constructor. Qed.
+
+Lemma solo_op_nz : forall t, Forall op_nz (solo_progs t).
+Proof. intros t. destruct t as [|t]; repeat constructor; cbn; discriminate. Qed.
+
+Example single_thread_is_sequential :
+  forall k own, In (k, own) [(KSlice, false); (KVec, true); (KArray, true); (KRange, false); (KIter, true)] ->
+  let e := ex_env k own in
+  let c := exec e (init solo_progs) (repeat 0%nat 60) in
+  src_env e /\ e_crash e = None /\ wf_progs solo_progs /\ plain_progs solo_progs /\
+  (forall t, Forall op_nz (solo_progs t)) /\ nowrap (c_labels c) /\
+  end_reported (c_trace c) = true /\ n_pending (c_trace c) = 0%Z /\
+  cov_in_order e (c_trace c) = [(0, 1); (1, 1); (2, 2); (4, 1); (5, 1); (6, 1)] /\
+  positions (cov_in_order e (c_trace c)) = [0; 1; 2; 3; 4; 5; 6].
+Proof.
+  intros k own Hin. cbn [In] in Hin. cbv zeta.
+  assert (Hsrc : src_env (ex_env k own)).
+  { repeat (destruct Hin as [Hin|Hin]; [injection Hin as <- <-|]); try contradiction;
+      try (left; split; [unfold wf_env; cbn; rewrite W_val; lia|split; reflexivity]).
+    right. split; [unfold wf_env; cbn; rewrite W_val; lia|reflexivity]. }
+  split; [exact Hsrc|]. split; [reflexivity|]. split; [exact solo_wf_progs|]. split; [exact solo_plain_progs|].
+  split; [exact solo_op_nz|].
+  repeat (destruct Hin as [Hin|Hin]; [injection Hin as <- <-|]); try contradiction;
+    (split; [apply nowrapb_ok; vm_compute; reflexivity|]);
+    (split; [vm_compute; reflexivity|]); (split; [vm_compute; reflexivity|]); split; vm_compute; reflexivity.
+Qed.
+
+Example single_thread_inside_an_operation :
+  let e := ex_env KIter true in
+  let c := exec e (init solo_progs) (repeat 0%nat 14) in
+  n_pending (c_trace c) = 1%Z /\
+  t_pc (c_pool c 0%nat) = PSrc {| q_n := 3; q_mode := MChunk 1; q_ctx := CTop |} 1 [2; 1] /\
+  nowrap (c_labels c) /\ has_panic (c_trace c) = false /\
+  cov_in_order e (c_trace c) = [(0, 1)] /\
+  adjacent_from 0 (cov_in_order e (c_trace c)) = true.
+Proof.
+  cbv zeta. split; [vm_compute; reflexivity|]. split; [vm_compute; reflexivity|].
+  split; [apply nowrapb_ok; vm_compute; reflexivity|]. split; [vm_compute; reflexivity|].
+  split; vm_compute; reflexivity.
 Qed.
